@@ -922,7 +922,7 @@ func TestC35(t *testing.T) {
 	r.Assume("API operations are reduced to (connect code | ok, version string); GetConfig payloads are decoded by the harness with gopkg.in/yaml.v3 into Gate's configuration type; histories start from the YAML-normal form of the default configuration (its MOTD is the only member that changes when written as YAML and read back)")
 	r.Assume("content = encoding/json document of the configuration value as marshalled by the harness; versions are opaque and only related to contents by what the API returned")
 
-	n := r.N(400, 4000)
+	n := r.N(320, 4000)
 	workers := r.N(4, 12)
 	var wg sync.WaitGroup
 	var sigMu sync.Mutex
